@@ -1,5 +1,6 @@
 import NeumannModel.TwoPC.Lemmas
 import NeumannModel.TwoPC.LemmasPart
+import NeumannModel.TwoPC.LemmasLate
 /-
   C03 — "Two-phase commit: every participant reaches the coordinator's one decision".
   ONLY the property theorems and their non-vacuity examples; helpers are in `Lemmas*.lean`.
@@ -137,6 +138,130 @@ example : (demoInit.run demoRun).appliedOps = [(0, 0, [.put 1 7, .del 2]), (1, 0
 example : ((demoInit.run (demoRun.take 9)).quiet (demoRun.drop 9)) = true := by decide
 -- the hypotheses of `abort_restores_shard` hold for the delivery of tx 1's abort to the shard that prepared it
 example : (demoInit.run (demoRun.take 13)).msgs[10]? = some (Msg.abort 1 1) := by decide
+
+/-! ### late PREPARE of a transaction that is already finished on the participant -/
+
+/-- A PREPARE(t) delivered (late duplicate, any number of times, at any point of any schedule) to a
+    participant on which `t` is already FINISHED (applied or discarded there, no prepared record left;
+    its `tx_locks` entry is still there, empty):
+    * touches no other participant and no data;
+    * never changes the lock (holder AND handle) of any key held by another transaction;
+    * never changes another transaction's prepared record;
+    * if one of its keys is held by another transaction it is answered CONFLICT naming another
+      transaction and the participant is left exactly as it was — no prepared record for `t`, so a
+      later ABORT(t) finds nothing to apply (`abort t` is the identity);
+    * and whatever happens afterwards (also when the keys were free and `t` was re-prepared): in every
+      state reachable from there, every ABORT delivery (first, duplicate, re-sent) and every
+      participant-side cleanup (`cleanup_stale`, `recover`, any shard, any timeout) leaves every key
+      of every shard exactly as it is. -/
+theorem late_prepare_of_finished_tx_harmless (stores : List Store) (tt mc lt : Nat) {s : Sys}
+    (hr : Reach (Sys.init stores tt mc lt) s) (i t sh : Nat) (ops : List Op) (p : Participant)
+    (hm : s.msgs[i]? = some (Msg.prepare t sh ops)) (hp : s.parts[sh]? = some p)
+    (hfin : s.finishedOn sh t = true) :
+    ∃ p', (s.step (.deliver i)).parts = s.parts.set sh p' ∧
+      (s.step (.deliver i)).parts[sh]? = some p' ∧
+      p'.store = p.store ∧
+      (∀ k l, findLock p.locks.locks k = some l → l.tx ≠ t → findLock p'.locks.locks k = some l) ∧
+      (∀ t', t' ≠ t → findPrepared p'.prepared t' = findPrepared p.prepared t') ∧
+      ((∃ op ∈ ops, ∃ l, findLock p.locks.locks op.key = some l ∧ l.tx ≠ t) →
+        p' = p ∧ findPrepared p'.prepared t = none ∧ p'.abort t = (p', false) ∧
+        ∃ c, c ≠ t ∧ (s.step (.deliver i)).msgs = s.msgs ++ [Msg.vote t sh (.conflict c)]) ∧
+      (∀ s'', Reach (s.step (.deliver i)) s'' →
+        (∀ j tx' sh', s''.msgs[j]? = some (Msg.abort tx' sh') →
+          ∀ sh2 k, sget ((s''.step (.deliver j)).storeOf sh2) k = sget (s''.storeOf sh2) k) ∧
+        (∀ sh' to sh2 k, sget ((s''.step (.cleanupStale sh' to)).storeOf sh2) k = sget (s''.storeOf sh2) k) ∧
+        (∀ sh' to sh2 k, sget ((s''.step (.recover sh' to)).storeOf sh2) k = sget (s''.storeOf sh2) k)) := by
+  have hS := (SInv.init stores tt mc lt).reach hr
+  have hP := hS p (List.mem_of_getElem? hp)
+  obtain ⟨hparts, hmsgs⟩ := step_deliver_prepare hm hp
+  obtain ⟨h1, h2, h3, h4⟩ := prepare_respects_others hP t ops
+  have hnone : findPrepared p.prepared t = none := by
+    simp only [Sys.finishedOn, hp, Bool.and_eq_true, Option.isNone_iff_eq_none] at hfin
+    exact hfin.2
+  refine ⟨(p.prepare s.now s.nextHandle t ops).1, hparts, ?_, h1, h2, h3, ?_, ?_⟩
+  · rw [hparts]; exact getElem?_set_self hp
+  · intro hheld
+    obtain ⟨c, hc, he⟩ := h4 hheld
+    rw [he] at hmsgs
+    rw [he]
+    exact ⟨rfl, hnone, abort_absent hnone, c, hc, hmsgs⟩
+  · intro s'' hr''
+    have hr2 : Reach (Sys.init stores tt mc lt) s'' := (Reach.step (.deliver i) hr rfl).trans hr''
+    refine ⟨?_, cleanupStale_keeps_data ((SInv.init stores tt mc lt).reach hr2),
+      recover_keeps_data ((SInv.init stores tt mc lt).reach hr2)⟩
+    intro j tx' sh' hj
+    apply abort_restores_shard stores tt mc lt hr2 (.deliver j) rfl
+    intro i' tx2 sh2 he hm2
+    cases he
+    rw [hj] at hm2
+    cases hm2
+
+/-! the 2-transaction history: T0 = tx 0 prepares k1 on shard 0, times out (its PREPARE to shard 1 is
+    lost) and is aborted on shard 0; T1 = tx 1 prepares the same key on shard 0; the delayed duplicate
+    PREPARE(T0) arrives while T1 is prepared; T1 commits on both shards; the re-sent ABORT(T0) arrives. -/
+
+def lateInit : Sys := Sys.init [[(1, 5)], [(2, 6)]] 2 100 1000
+
+def lateRun : List Ev :=
+  [ .begin [0, 1] [(0, [.put 1 7]), (1, [.put 2 8])] [],   -- msgs 0 = PREPARE(T0) shard 0, 1 = shard 1 (lost)
+    .deliver 0, .deliver 2,                                 -- 2 = shard 0's YES vote
+    .tick 3, .sweep,                                        -- timeout: 3 = ABORT(T0) shard 0, 4 = shard 1
+    .deliver 3, .deliver 4,                                 -- T0 is finished on shard 0
+    .begin [0, 1] [(0, [.put 1 9]), (1, [.put 2 10])] [],  -- 5 = PREPARE(T1) shard 0, 6 = shard 1
+    .deliver 5,                                             -- T1 prepared on shard 0, holds k1; 7 = its YES
+    .deliver 0,                                             -- the late duplicate PREPARE(T0); 8 = its answer
+    .deliver 8, .deliver 7, .deliver 6, .deliver 9,         -- T1 collects its votes (9 = shard 1's YES)
+    .coordCommit 1, .deliver 10, .deliver 11,               -- COMMIT(T1) applied on both shards
+    .deliver 3 ]                                            -- the re-sent ABORT(T0) reaches shard 0
+
+def lateMid : Sys := lateInit.run (lateRun.take 9)
+
+-- non-vacuity: `lateMid` is reachable and satisfies every hypothesis of
+-- `late_prepare_of_finished_tx_harmless`, including "one of the keys is held by another transaction";
+-- T0's `tx_locks` entry has survived `release_by_handle` (empty), which is what the variant reads
+example : Reach lateInit lateMid := reach_run .refl _ (by decide)
+example : lateMid.msgs[0]? = some (Msg.prepare 0 0 [.put 1 7]) := by decide
+example : lateMid.finishedOn 0 0 = true := by decide
+example : (lateMid.parts[0]?.map (·.holder 1)) = some (some 1) := by decide
+example : (lateMid.parts[0]?.map (·.locks.txLocks)) = some [(0, []), (1, [1])] := by decide
+-- … and on the code as it is the whole history is harmless: CONFLICT, T1 keeps k1, both shards end with T1's writes
+example : (lateMid.step (.deliver 0)).msgs[8]? = some (Msg.vote 0 0 (.conflict 1)) := by decide
+example : ((lateMid.step (.deliver 0)).parts[0]?.map (·.holder 1)) = some (some 1) := by decide
+example : Reach lateInit (lateInit.run lateRun) := reach_run .refl _ (by decide)
+example : (lateInit.run lateRun).decided = [(0, false), (1, true)] := by decide
+example : sget ((lateInit.run lateRun).storeOf 0) 1 = some 9 ∧ sget ((lateInit.run lateRun).storeOf 1) 2 = some 10 := by
+  decide
+
+/-- The conflict-check-skipping variant of `try_lock` ("a transaction with an entry in `tx_locks` is
+    re-entering, skip the scan" — while `release_by_handle` keeps the entry of a finished transaction)
+    breaks `late_prepare_of_finished_tx_harmless` on the 2-transaction history.  Up to the late PREPARE
+    the variant run is the run of the code (T0 finished on shard 0, T1 prepared there and holding k1);
+    the late PREPARE(T0) is then answered YES, the lock on k1 moves from T1 to T0, and a prepared record
+    for T0 with the stale pre-image k1 = 5 is kept; T1 commits on both shards; the re-sent ABORT(T0) —
+    or the participant's own `cleanup_stale` — then installs 5 over T1's committed 9 on shard 0 while
+    shard 1 keeps T1's 10: the shards are split and a committed write is lost. -/
+theorem late_prepare_breaks_tryLockNoConflictCheckForKnownTx_witness :
+    let mid := lateInit.runNoConflictCheckForKnownTx (lateRun.take 9)
+    let stolen := mid.stepNoConflictCheckForKnownTx (.deliver 0)
+    let done := lateInit.runNoConflictCheckForKnownTx (lateRun.take 17)
+    let resent := done.stepNoConflictCheckForKnownTx (.deliver 3)
+    let cleaned := done.stepNoConflictCheckForKnownTx (.cleanupStale 0 0)
+    -- hypotheses of the theorem hold before the late PREPARE …
+    mid.msgs[0]? = some (Msg.prepare 0 0 [.put 1 7]) ∧ mid.finishedOn 0 0 = true ∧
+    (mid.parts[0]?.map (·.holder 1)) = some (some 1) ∧
+    -- … which now takes T1's lock, is answered YES and leaves a record with a stale undo image
+    (stolen.parts[0]?.map (·.holder 1)) = some (some 0) ∧
+    stolen.msgs[8]? = some (Msg.vote 0 0 (.yes 2 [1])) ∧
+    (stolen.parts[0]?.map (fun q => (findPrepared q.prepared 0).map (·.undo))) = some (some [.restore 1 5]) ∧
+    -- T1's one decision is commit and both shards applied it
+    done.decided = [(0, false), (1, true)] ∧ done.applied = [(0, 1), (1, 1)] ∧
+    sget (done.storeOf 0) 1 = some 9 ∧ sget (done.storeOf 1) 2 = some 10 ∧
+    -- the re-sent ABORT(T0) (msgs[3]) rolls shard 0 back to T0's stale pre-image; shard 1 keeps T1's write
+    resent.msgs[3]? = some (Msg.abort 0 0) ∧
+    sget (resent.storeOf 0) 1 = some 5 ∧ sget (resent.storeOf 1) 2 = some 10 ∧
+    -- and so does the participant's stale-prepared cleanup
+    sget (cleaned.storeOf 0) 1 = some 5 ∧ sget (cleaned.storeOf 1) 2 = some 10 := by
+  decide
 
 /-! ### the two counter-traces over the EXTENDED alphabet (outside C03's quantifier) -/
 
